@@ -110,7 +110,7 @@ func genMultiOpt(t *Tape, yieldProbe bool) *multiCase {
 	}
 	// spec
 	var parts []string
-	twoPlaces := false
+	twoPlaces, specDash := false, false
 	form := t.Draw(4)
 	if form == 3 && (argRow != nil || !hasArg) {
 		form = 0
@@ -156,16 +156,26 @@ func genMultiOpt(t *Tape, yieldProbe bool) *multiCase {
 		parts = append(parts, rest...)
 	}
 	if hasArg {
+		if t.Draw(5) == 0 {
+			specDash = true
+			parts = append(parts, "--") // the end of the options written in the spec
+		}
 		parts = append(parts, "[X]")
 	}
 	if argRow != nil {
 		parts = append(parts, argRow.spec)
 	}
 	var probeDecl *Decl
-	if yieldProbe {
+	bystander := !yieldProbe && !twoPlaces && t.Draw(5) == 0
+	if yieldProbe || bystander {
 		// (its name sorts before, among or after the other options: an implementation may fill in name order)
 		pn := []string{"Q quux", "q quux", "z quux"}[t.Draw(3)]
-		probeDecl = &Decl{Kind: KVar, Name: pn, Probe: &ProbeSpec{YieldInSet: true}}
+		probeDecl = &Decl{Kind: KVar, Name: pn, Probe: &ProbeSpec{YieldInSet: yieldProbe}}
+		if bystander {
+			// a custom value next to the built-in ones; with IsBoolFlag()==false it takes a value like any valued option
+			probeDecl.Probe.HasBool = true
+			probeDecl.Probe.HasDefault = t.Draw(2) == 1
+		}
 		if len(parts) == 0 || parts[0] != "[OPTIONS]" {
 			parts = append([]string{"[-" + pn[:1] + "]"}, parts...)
 		}
@@ -202,13 +212,38 @@ func genMultiOpt(t *Tape, yieldProbe bool) *multiCase {
 		argv = append(append(append([]string{"app"}, s.toks[:cut]...), "xval"), s.toks[cut:]...)
 		c.Cli[ds.Args[0]] = []string{"xval"}
 	}
-	if probeDecl != nil {
+	if probeDecl != nil && !bystander {
 		pn := probeDecl.Name[:1]
 		argv = append([]string{"app", []string{"-" + pn + "=1", "--quux=2", "-" + pn + "3"}[t.Draw(3)]}, argv[1:]...)
 	}
-	if hasArg && t.Draw(2) == 1 {
-		argv = append(argv, "xval")
-		c.Cli[ds.Args[0]] = []string{"xval"}
+	if bystander {
+		// given last among the options, also with its value as a separate token (which only a valued option takes)
+		pn := probeDecl.Name[:1]
+		argv = append(argv, [][]string{{"-" + pn + "=1"}, {"--quux=2"}, {"-" + pn + "3"}, {"-" + pn, "4"}, {"--quux", "5"}}[t.Draw(5)]...)
+	}
+	if hasArg {
+		// the positional: absent, given, given behind `--`, and `--` itself as its value (only the first `--` is the marker)
+		var tail []string
+		sel := t.Draw(8)
+		if specDash {
+			// with `--` in the spec an option occurrence may be re-read as the positional (what it then means is
+			// not by construction): the command line says itself where the options end
+			sel = 3 + sel%3
+		}
+		switch sel {
+		case 0, 1, 2:
+			tail = []string{"xval"}
+		case 3:
+			tail = []string{"--", "xval"}
+		case 4:
+			tail = []string{"--", "--"}
+		case 5:
+			tail = []string{"--"}
+		}
+		argv = append(argv, tail...)
+		if len(tail) > 0 && tail[len(tail)-1] != "--" || len(tail) == 2 {
+			c.Cli[ds.Args[0]] = []string{tail[len(tail)-1]}
+		}
 	}
 	if argRow != nil {
 		for i, name := range argRow.bound {
